@@ -292,3 +292,6 @@ PLAN["C01"]["units"] = PLAN["C01"]["units"] + [UT + "parse_socket_addr"]
 # C02 "followed only by the server's own date/server/alt-svc/connection headers": what
 # Config.response_headers returns (and that it keeps no state between calls: frame obligation)
 PLAN["C02"]["units"] = PLAN["C02"]["units"] + ["hypercorn.config:Config.response_headers"]
+# C07 "the connection's handler finishes ... as soon as its applications return": an application
+# that returns always makes its stream report StreamClosed (unless it is closed already)
+PLAN["C07"]["units"] = PLAN["C07"]["units"] + [HS + "app_send"]
